@@ -96,7 +96,7 @@ impl Driver for C09 {
             Out::Val(Err(e)) => ctx.count(&format!("load:Err({:?})", e)),
             Out::Val(Ok(h)) => {
                 ctx.count("load:Ok");
-                let opts = Opts { debug: !cfg!(miri) || mix(idx) % 4 < 2, debug_whole: true };
+                let opts = Opts { debug: !cfg!(miri) || mix(idx) % 4 < 2, debug_whole: true, strict_extent: false };
                 let mut tr = Tr::new(false, false);
                 let before = ctx.counters.iter().filter(|(k, _)| k.starts_with("accessors:")).map(|(_, v)| *v).sum::<u64>();
                 exercise_hdr::header(ctx, &reg, &mut tr, &opts, &h, &mem);
